@@ -128,3 +128,8 @@ chk("C28", "E1 (depth-2 exhaustive argument enumeration)",
     "For every data-dependent producer (NumPy and dask masks incl. every mask for n<=4, x[x>k], unique, nonzero, flatnonzero, argwhere, 2-D row/column/full masks) over every chunking: compute_chunk_sizes() must set exactly the sizes of the executed blocks, the shape must equal NumPy's and every follow-on op must equal NumPy; without it every follow-on op must either raise or return NumPy's value and shape.",
     "Trusted: any exception is an acceptable refusal while sizes are unknown.",
     "DESIGN.md §4 C28")
+chk("C29", "E1 program explorer with recording sources and recording user functions",
+    "bounded exhaustive program exploration; a data-access log is inspected after every construction step and after every metadata accessor",
+    "Every depth<=2 program over recording array-like sources (several from_array option sets) and recording user functions (map_blocks with/without dtype, map_overlap, blockwise, reduction) is built and then put through 27 accessors (shape ... repr, _repr_html_, transfer_bytes, pprint, simplify, optimize, __dask_graph__, explain, chunk_report, to_delayed, frisky keys); after each step the logs must show no non-empty __getitem__, no __array__ and no user-function call on real data; a final compute must register reads.",
+    "Trusted: one-element probes holding 0/1/NaN are dask's fake data for dtype/meta inference, not user data (sources hold values >= 10).",
+    "DESIGN.md §4 C29")
